@@ -1,4 +1,5 @@
 """C07 — moves are accepted according to the Metropolis rule."""
+import re
 from ..absval import AbsEval, B, F, FINITE, show
 from ..anchors import AnchorLost, OptimiserAnchors, is_trait_call
 from ..harness import where
@@ -210,7 +211,10 @@ def run(ctx):
                 continue
             gty = '&mut ' + b.local_ty(gen_local)
             for ai, a in enumerate(t['args']):
-                if a.get('ty', '') == gty:
+                aty = a.get('ty', '')
+                # inside an inlined generic helper the generator has the helper's type parameter as its type
+                generic = re.match(r'^&mut [A-Z][A-Za-z0-9]*$', aty) is not None and b.locals[a['l']].get('inl') if 'l' in a else False
+                if aty == gty or generic:
                     o = tr.origin(a)
                     n_rng += 1
                     rep.check(o.get('l') == gen_local, 'R4', 'rng-argument-is-the-seeded-generator:%s'
